@@ -13,7 +13,7 @@ import (
 
 // C13 — graceful shutdown is clean from every lifecycle state.
 
-var c13States = []string{"hc-retrying", "rm-waiting", "idle", "consumer-blocked", "save-held", "save-failing", "reb-in-BSS", "reb-after-ASS", "reb-in-delay", "reb-in-BSStart", "reb-after-ARE", "mid-traffic", "end-during-close", "notify-during-close", "signal-after-close", "signal-only", "close-during-reopen-retry", "map-change-at-close", "close-at-once"}
+var c13States = []string{"hc-retrying", "rm-waiting", "idle", "consumer-blocked", "save-held", "save-failing", "reb-in-BSS", "reb-after-ASS", "reb-in-delay", "reb-in-BSStart", "reb-after-ARE", "mid-traffic", "end-during-close", "notify-during-close", "signal-after-close", "signal-only", "close-during-reopen-retry", "map-change-at-close", "close-at-once", "close-during-reconfigure"}
 
 type c13Cfg struct {
 	RM, HC, API, Auto bool
@@ -103,6 +103,13 @@ func c13Spec(rng *rand.Rand, state string, c c13Cfg) *SessSpec {
 		sp.RollbackMitigation = true
 		sp.FailoverLogDelayMs = 300
 		sp.Steps = nil
+	case "close-during-reconfigure":
+		// the cluster publishes a newer map; the rollback mitigation has stopped its observer and is collecting the failover
+		// logs for the next one (answered slowly) when Close() arrives
+		sp.RollbackMitigation = true
+		sp.FailoverLogDelayMs = 300
+		sp.LogDelayMs = map[string]int{"new cluster config received, groupId = 2": 1}
+		sp.Steps = append(sp.Steps, Step{Op: "bumpconfig", Sel: "nowait"}, Step{Op: "waitlog", Sel: "new cluster config received, groupId = 2"})
 	case "map-change-at-close":
 		// the cluster publishes a newer map revision right before Close(); Close() stops the rollback mitigation and is then held
 		// (inside AfterStreamStop, connections still open) longer than the mitigation's map-watch interval: whatever the
